@@ -233,7 +233,10 @@ def ds_strategy(tier):
                 "bin": draw(st.sampled_from(["within", "within=", "=within", "=within=", "above", "below="])),
                 # -r / -b given although the axis is a data dimension: a deterministic score does not depend on them; 'within' is
                 # scored for that one event
-                "with_r": draw(st.sampled_from([False, True]))}
+                "with_r": draw(st.sampled_from([False, True])),
+                # the valid pairs of the slice: also under -obsrange (on the observed value itself) and -c / -C
+                "obs_range": draw(st.sampled_from([None, None, "draw"])) and sorted([draw(st.integers(-20, 20)) / 2.0, draw(st.integers(-20, 20)) / 2.0]),
+                "clim_type": draw(st.sampled_from(["subtract", "subtract", "divide"]))}
     return s()
 
 
@@ -241,7 +244,13 @@ def check_dataset(case, ctx):
     import numpy as np
     from .. import mat
     spec = case["spec"]
-    ds = model.DS(spec)
+    opts = {}
+    if case.get("obs_range"):
+        opts["obs_range"] = case["obs_range"]
+        ctx.label("-obsrange" + ("+clim" if spec.get("clim") else ""))
+    if spec.get("clim") and case.get("clim_type"):
+        opts["clim_type"] = case["clim_type"]
+    ds = model.DS(spec, opts)
     if ds.empty:
         return
     axis = case["axis"]
@@ -255,7 +264,7 @@ def check_dataset(case, ctx):
     for name in names:
         supports = name in mrun.SUPPORTS_AGG
         agg = case["agg"] if supports else "mean"
-        data = mat.make_data(spec)
+        data = mat.make_data(spec, opts)
         kw = {}
         if axis in ("obs", "fcst"):
             kw = {"thresholds": case["edges"], "bin_type": case["bin"]}
